@@ -91,6 +91,42 @@ Definition pix_at (g : gfile) (i j : nat) : option Z :=
   | None => None
   end.
 
+(** ** The DICOM rescale (nibabel Wrapper._scale_data / _apply_scale_offset)
+    [get_data() = stored * RescaleSlope + RescaleIntercept] (slope 1 / intercept 0 when absent), computed in
+    float64 whenever a rescale is present.  [g_pix] holds these values in units of [1 / rs_den] (a power of two
+    chosen by the harness so that dyadic fractional values become integers; 1 for integral data): this record
+    makes "the value after the DICOM rescale" a statement of the model. *)
+Record rescale := mkrescale {
+  rs_stored : list (list Z);      (* pixel_array: the stored values, rows x cols *)
+  rs_slope : Q;                   (* scale_factors[0][0] *)
+  rs_icpt : Q;                    (* scale_factors[0][1] *)
+  rs_den : Q
+}.
+
+Definition stored_at (r : rescale) (i j : nat) : option Z :=
+  match nth_error (rs_stored r) i with
+  | Some row => nth_error row j
+  | None => None
+  end.
+
+Definition rescaled_val (r : rescale) (x : Z) : Q := (rs_den r * (rs_slope r * inject_Z x + rs_icpt r))%Q.
+
+Fixpoint row_rescaled (r : rescale) (zs xs : list Z) : bool :=
+  match zs, xs with
+  | [], [] => true
+  | z :: zr, x :: xr => Qeq_bool (inject_Z z) (rescaled_val r x) && row_rescaled r zr xr
+  | _, _ => false
+  end.
+Fixpoint rows_rescaled (r : rescale) (zs xs : list (list Z)) : bool :=
+  match zs, xs with
+  | [], [] => true
+  | z :: zr, x :: xr => row_rescaled r z x && rows_rescaled r zr xr
+  | _, _ => false
+  end.
+
+(** [g_pix g] is the rescale [r] of the stored pixels *)
+Definition rescaled_ok (g : gfile) (r : rescale) : bool := rows_rescaled r (g_pix g) (rs_stored r).
+
 (* ------------------------------------------------------------------------------------------ *)
 (** * from_dicom_wrapper: the single-file NIfTI image *)
 
